@@ -141,16 +141,21 @@ func (c *RepoCache) Pull(remote string) error {
 		return err
 	}
 
+	// Every result has to be consumed: the merging goroutines block on an abandoned channel and
+	// would never get to persist what they have already merged.
+	var firstErr error
 	for merge := range c.MergeAll(remote) {
-		if merge.Err != nil {
-			return merge.Err
+		if firstErr != nil {
+			continue
 		}
-		if merge.Status == entity.MergeStatusInvalid {
-			return errors.Errorf("merge failure: %s", merge.Reason)
+		if merge.Err != nil {
+			firstErr = merge.Err
+		} else if merge.Status == entity.MergeStatusInvalid {
+			firstErr = errors.Errorf("merge failure: %s", merge.Reason)
 		}
 	}
 
-	return nil
+	return firstErr
 }
 
 func (c *RepoCache) SetUserIdentity(i *IdentityCache) error {
